@@ -1,4 +1,4 @@
-import MtailVerif.Proofs.ScopeDup
+import MtailVerif.Proofs.ScopeUnused
 /-! # C24 — invalid programs are rejected with a positioned error
 
     `Scope.check` (Model/Scope.lean) mirrors the checker's symbol handling; regular-expression
@@ -12,7 +12,10 @@ import MtailVerif.Proofs.ScopeDup
     (`undeclared_name_rejected`: an invariant of the checker's whole state says nothing can resolve
     the name, whatever was declared, captured by `next` or instantiated before); so is a name that
     two statements of one block declare (`redeclared_name_rejected`: every visit leaves the scope
-    stack as it found it, so the first declaration is still there when the second arrives); and each of the other defect
+    stack as it found it, so the first declaration is still there when the second arrives); so is a
+    metric, constant or decorator that a block declares and nothing in the program refers to
+    (`unused_declaration_rejected`: the symbol stays unmarked and in its block's scope until the
+    block is swept); and each of the other defect
     classes is reported by its clause whenever the walk reaches the offending node
     (`*_reported`: the lookup fails / the name is taken / the pattern is too long or does not parse /
     a declaration leaves its scope unused), each with the offending node's or declaration's own
@@ -69,6 +72,18 @@ theorem undeclared_name_rejected (cfg : Cfg) (prog : Node) (name : String)
     branch, a decorator definition, a decorated block). -/
 theorem redeclared_name_rejected (cfg : Cfg) (prog : Node) (h : hasDup prog = true) : check cfg prog ≠ [] := by
   have := dup_fires cfg prog h {} rfl
+  unfold check
+  intro he
+  rw [he] at this
+  simp at this
+
+/-- **unused declaration**: a metric, a pattern constant or a decorator that some block of the
+    program declares — at top level, in a condition's block or else branch, in a decorator
+    definition, in a decorated block — and that no identifier and no decorator use anywhere in the
+    program names, makes the checker reject the program. -/
+theorem unused_declaration_rejected (cfg : Cfg) (prog : Node) (x : String)
+    (hd : declaresInBlock x prog = true) (hm : mentions x prog = false) : check cfg prog ≠ [] := by
+  have := unused_fires cfg x prog hd hm {} rfl (g_init x)
   unfold check
   intro he
   rw [he] at this
@@ -178,6 +193,16 @@ example : hasDup (.stmts (.cons (.decl { kind := 1, name := "a", hidden := false
   (check cfg0 (.stmts (.cons (.decl { kind := 1, name := "a", hidden := false, exported := "", keys := [], limit := 0, buckets := [] } p0)
     (.cons (.un .inc (.id "a" p0 .unk) p0 .unk) (.cons (.const (.id "a" ⟨2, 6, 6⟩ .unk) (.patexpr (.patlit [120] p0) []) []) .nil))))).map (·.cls) = [.redeclConst] := by
   refine ⟨by decide, by decide⟩
+
+/-- `/x/ { counter inner }`: declared in a nested block, referred to nowhere -/
+example : declaresInBlock "inner" (.stmts (.cons (.cond (.un .match (.patexpr (.patlit [120] p0) []) p0 .unk)
+      (.stmts (.cons (.decl { kind := 1, name := "inner", hidden := false, exported := "", keys := [], limit := 0, buckets := [] } ⟨1, 2, 14⟩) .nil)) .nil) .nil)) = true ∧
+    mentions "inner" (.stmts (.cons (.cond (.un .match (.patexpr (.patlit [120] p0) []) p0 .unk)
+      (.stmts (.cons (.decl { kind := 1, name := "inner", hidden := false, exported := "", keys := [], limit := 0, buckets := [] } ⟨1, 2, 14⟩) .nil)) .nil) .nil)) = false ∧
+    check cfg0 (.stmts (.cons (.cond (.un .match (.patexpr (.patlit [120] p0) []) p0 .unk)
+      (.stmts (.cons (.decl { kind := 1, name := "inner", hidden := false, exported := "", keys := [], limit := 0, buckets := [] } ⟨1, 2, 14⟩) .nil)) .nil) .nil)) =
+      [⟨.unused .var, some ⟨1, 2, 14⟩⟩] := by
+  refine ⟨by decide, by decide, by decide⟩
 
 /-- the same `next` inside a decorator definition is fine, and the decorated block sees `$0` -/
 example : check cfg0 (.stmts (.cons (.decodecl "d" (.stmts (.cons (.cond (.un .match (.patexpr (.patlit [120] p0) []) p0 .unk)
